@@ -62,10 +62,14 @@ func entryOfElement(v ssa.Value) ssa.Value {
 		return nil
 	}
 	base, ok := ssau.IsFieldLoad(ta.X, "container/list.Element", "Value")
-	if !ok {
-		return nil
+	if ok {
+		return base
 	}
-	return base
+	// list.Remove(e) returns e.Value
+	if call, isCall := ta.X.(*ssa.Call); isCall && ssau.CallName(call) == "(*container/list.List).Remove" && len(call.Common().Args) == 2 {
+		return call.Common().Args[1]
+	}
+	return nil
 }
 
 func lruTag(in ssa.Instruction) []string {
@@ -331,7 +335,8 @@ func c12Capacity(env *lruEnv, newFn *ssa.Function) {
 	for _, ci := range caps {
 		for _, then := range []bool{true, false} {
 			for _, call := range evictCallsUnder(ci, then) {
-				if cal := call.Common().StaticCallee(); cal != nil && env.isLRUMethod(cal) {
+				if cal := call.Common().StaticCallee(); cal != nil && env.isLRUMethod(cal) && len(call.Common().Args) < 2 {
+					// a method that picks the victim itself
 					victims = append(victims, struct {
 						fn   *ssa.Function
 						call *ssa.Call
